@@ -6,3 +6,13 @@ ASSUMPTIONS = list(ws_common.ASSUMPTIONS)
 
 def build(reg):
     ws_units.build(reg)
+
+
+def extra_checks(tier, seed):
+    """lemmas about spec functions used as axioms in this property's VCs"""
+    from pyvc import natives
+    from pyvc.spec_tools import solve
+    out = []
+    for name, (hyps, goal) in natives.join_lemma_obligations():
+        out.append(solve("%s/lemma/" % __name__.split(".")[-1].upper() + name, hyps, goal, 20000))
+    return out
